@@ -214,6 +214,15 @@ def run_vector_agree(chk, spec):
 	if not M.eq_list(list(v._underlying), vals):
 		chk.skip("vector-agree-write-differs")      # (C08's subject)
 		return
+	if spec.get("presort") is not None:
+		# the vector comes straight out of sort_by(): its reductions are still those of its values
+		sv = call(v.sort_by, reverse=spec["presort"][0], na_last=spec["presort"][1])
+		if not sv.ok or not isinstance(sv.value, Vector) or len(sv.value) != len(vals):
+			chk.skip("vector-agree-presort-refused")
+			return
+		v = Vector(list(sv.value._underlying), name="v") if False else sv.value
+		v.name = "v"
+		vals = list(v._underlying)
 	if all(x is None for x in vals):
 		chk.skip("vector-agree-all-none")
 		return
@@ -265,7 +274,30 @@ def run_agg_chain(chk, spec):
 		c13.run_window(chk, second, table=mid)
 
 
-RUNNERS = {"aggregate": run_aggregate, "vector_agree": run_vector_agree, "agg_chain": run_agg_chain}
+def run_label_keys(chk, spec):
+	"""key and value columns whose labels are not strings, addressed by the sanitised spelling of their own label - whatever labels were sanitised earlier"""
+	lab = {"1": 1, "True": True, "1.0": 1.0, "0": 0, "False": False}
+	sp = {"1": "c1", "True": "true", "1.0": "c1_0", "0": "c0", "False": "false"}
+	for first in spec["order"]:
+		t0 = Table([Vector(["p", "q"], name=lab[first]), Vector([1, 2], name="z")])
+		call(lambda: t0.aggregate(over=sp[first], sum_over="z"))
+	kx, vx = spec["key_label"], spec["other_label"]
+	keys = ["a", "b", "a", "c"]
+	other = ["u", "u", "w", "w"]
+	vals = [1, 2, 4, 8]
+	t = Table([Vector(list(other), name=lab[vx]), Vector(list(keys), name=lab[kx]), Vector(list(vals), name="v")])
+	o = call(lambda: getattr(t, spec["op"])(over=sp[kx], sum_over="v"))
+	chk.judged("aggregate" if spec["op"] == "aggregate" else "window", ("label-keys", spec["op"], kx, vx, tuple(spec["order"])))
+	if not o.ok:
+		chk.fail(f"{spec['op']} computes every admissible request", f"{spec['op']}/raises/label-key/{type(o.exc).__name__}", f"{spec!r}: over={sp[kx]!r} (label {lab[kx]!r}) raised {o!r}")
+		return
+	names, cols = J.cells(o.value)
+	exp_keys, exp_sums = (["a", "b", "c"], [5, 2, 8]) if spec["op"] == "aggregate" else (keys, [5, 2, 5, 8])
+	if len(cols) < 2 or cols[0] != exp_keys or cols[-1] != exp_sums:
+		chk.fail("one row per distinct key tuple / every row its group's value (the key is the column the caller named)", f"{spec['op']}/key-values/label-key", f"{spec!r}: over={sp[kx]!r} (label {lab[kx]!r}): {short(cols, 160)}, expected keys {exp_keys} sums {exp_sums}")
+
+
+RUNNERS = {"aggregate": run_aggregate, "vector_agree": run_vector_agree, "agg_chain": run_agg_chain, "label_keys": run_label_keys}
 RUNNERS["recompute"] = recompute.runner("C12")
 
 
@@ -286,6 +318,13 @@ def exhaustive_specs(chk, op):
 				"over": [{"mode": rng.choice(["name", "vector", "external"]), "name": "k", "values": list(keys)}], "scalar_over": rng.random() < 0.5,
 				"aggs": {f: [{"mode": "name", "name": rng.choice(["v", "w"])}] for f in fns},
 				"apply": [{"out": "custom", "col": {"mode": "name", "name": "v"}, "fn": rng.choice(["tuple", "first", "drain"])}]}
+
+
+def label_key_cases(chk, op):
+	import itertools
+	for kx, vx in list(itertools.permutations(["1", "True", "1.0"], 2)) + list(itertools.permutations(["0", "False"], 2)):
+		for order in ([], [vx], [kx, vx], [vx, kx]):
+			chk.case("label_keys", {"key_label": kx, "other_label": vx, "order": order, "op": op}, "label-keys")
 
 
 def chain_cases(chk, second_op):
@@ -311,6 +350,7 @@ def run(chk):
 	for _ in range(700 if chk.quick() else 4000):
 		chk.case("aggregate", common.gen_agg_spec(rng, max_rows=rng.choice([6, 10]) if chk.quick() else rng.choice([6, 10, 40, 150]), op="aggregate"), "aggregate-sampled")
 	chain_cases(chk, "aggregate")
+	label_key_cases(chk, "aggregate")
 	for _ in range(150 if chk.quick() else 800):
 		kind = rng.choice(["int", "float", "bool"])
 		n = rng.choice([1, 2, 3, 6])
@@ -326,4 +366,14 @@ def run(chk):
 				writes.append(([i, j], [rng.choice([None, V.pick(rng, kind, small=True)]), rng.choice([None, V.pick(rng, kind, small=True)])]))
 			spec["writes"] = writes
 			spec["idx_form"] = rng.choice(["list", "vector"])
+		if rng.random() < 0.4:
+			spec["presort"] = (rng.random() < 0.5, rng.random() < 0.5)
 		chk.case("vector_agree", spec, "vector-agree")
+	for _ in range(60 if chk.quick() else 400):
+		n = rng.choice([2, 3, 5])
+		vals = [rng.choice([1, 1.0, True, 0, 0.0, False, 2, 2.0, None]) for _ in range(n)] if rng.random() < 0.5 else [rng.choice([2.0, float("nan"), 1.0, -3.5, None]) for _ in range(n)]
+		if all(x is None for x in vals) or any(isinstance(x, float) and x != x for x in vals) and rng.random() < 0.0:
+			continue
+		if any(isinstance(x, float) and x != x for x in vals):
+			continue      # (NaN has no place in an order: min / max of such data are not determined)
+		chk.case("vector_agree", {"values": vals, "kind": "mixed-equal", "key": "g", "presort": (rng.random() < 0.5, rng.random() < 0.5)}, "vector-agree-presorted-mixed")
